@@ -752,7 +752,12 @@ def run_family(ctx, part):
     fam = Family(ctx, spec)
     try:
         ncell = 0
-        if sel == "names":
+        if sel == "options":
+            from mc.props import c09_extra
+
+            for cell in c09_extra.option_cells(ctx.seed):
+                c09_extra.run_option_cell(ctx, fam, cell, given)
+        elif sel == "names":
             from mc.props import c09_extra
 
             for cell in c09_extra.name_cells(ctx.seed):
@@ -791,6 +796,7 @@ def run(ctx):
         "path cells with an explicit format additionally x {suffix agrees, suffix names another supported format, unsupported suffix, no suffix}; "
         "plus NAME cells (c09_extra: multi-dot names, upper/mixed case suffix, dots in directory names, dot files, trailing dot, no suffix; fmt given and not given) "
         "and EXTENT cells (c09_extra: multi-record texts with a damaged 2nd / 3rd / last record or trailing garbage through every reader, otype and name); "
+        "OPTION cells (c09_extra: every keyword option a class-level dump_*/dumps_* method of the format knows, each non-default value, all together, and one unknown keyword, through dumps, dump -> StringIO / file stream / path); "
         "plus HISTORY cells (c09_hist): every entry point called twice with a change in between (same path overwritten with other content, "
         "twin paths, result edited by the caller, str then Path, same relative path after chdir; two dumps into one target in every mode pair); "
         "every cell executed on the real entry point; a cell is non-trivial when it is a supported cell in which both the entry point and the "
@@ -807,7 +813,7 @@ def run(ctx):
         "with fmt=None the format is pathlib's suffix of the path (after the LAST dot of the file name; a leading dot or a trailing dot gives no suffix); a suffix that is a supported format in other letter case may be refused with ValueError or read as that format",
         "extent cells demand what the class method does with the same damaged multi-record argument: the same structures or the same exception class (single-structure loaders read the first record only)",
         "history cells demand nothing new: the second call must equal the class method applied at that moment; handing out the identical object twice is not by itself a violation, only a visible difference is",
-        "dump/dumps kwargs pass-through and the `key` argument of the writers are not part of the matrix",
+        "keyword options: ml.dump / ml.dumps hand **kwargs to the codec - expected is the class method called with the same options (same text, or the same exception class, e.g. TypeError for an option it does not take); the readers take no **kwargs; the `key` argument of the writers is not part of the matrix",
     ]
     fams = thorough_families() if ctx.thorough else quick_families()
     ctx.bound["families"] = [f[0] for f in fams]
@@ -840,7 +846,7 @@ def run(ctx):
             # name shapes and call histories are about dispatch, not content: they are run on every other
             # family and skipped for the one 320 kB input (0.75 s per read)
             ctx.bound.setdefault("families_without_name_and_history_cells", []).append(f[0])
-        parts += [(f, sel) for sel in rsel + (("write",) if big else ("write", "history", "names"))]
+        parts += [(f, sel) for sel in rsel + (("write",) if big else ("write", "history", "names", "options"))]
     parts += [((src, None, None, None), "extent") for src in c09_extra.EXTENT_SOURCES]
     ctx.pmap(run_family, parts)
 
@@ -861,6 +867,12 @@ def replay(ctx, case):
         cell = case["cell"]
         if cell["op"] == "read":
             run_reader_cell(ctx, fam, cell, case["given"])
+        elif cell["op"] == "options":
+            from mc.props import c09_extra
+
+            obj = make_object(fam, cell["otype"], "none", case["given"])
+            if obj is not None:
+                c09_extra._one_option(ctx, fam, {k: v for k, v in cell.items() if k != "options"}, case["given"], obj, cell["options"])
         elif cell["op"] == "name":
             from mc.props import c09_extra
 
